@@ -147,7 +147,7 @@ PROPS["C01"] = {
 
 PROPS["C15"] = {
     "level": "model_checking",
-    "kani": [{"package": "boa_engine", "flags": ENGINE_FLAGS, "tags": ["model", "c15a", "c01d", "c15d", "c15c"]}],
+    "kani": [{"package": "boa_engine", "flags": ENGINE_FLAGS, "tags": ["model", "c15a", "c01d", "c15d", "c15c", "c15e"]}],
     "assumptions": COMMON_ASSUME + [
         "JsValue::to_number is stubbed to the identity on Numbers (the real one returns exactly that for a Number without touching Context); a &mut Context placeholder is passed that must never be dereferenced",
         "TypedArray is partially initialised (kind, byte_offset, byte_length, array_length); viewed_array_buffer is never read by the kernels under test",
